@@ -45,3 +45,7 @@ N("c04-n-walker-elif", "C04", A, "CancelScope._effectively_cancelled",
   "            if cancel_scope._cancel_called:\n                return True\n            elif cancel_scope.shield:\n                return False\n            else:\n                cancel_scope = cancel_scope._parent_scope")
 N("c04-n-vis-order", "C04", A, "CancelScope._parent_cancellation_is_visible_to_us",
   "            self._parent_scope is not None\n            and not self.shield\n", "            not self.shield\n            and self._parent_scope is not None\n")
+
+# from seeded changes C01/c and C05/d (round 2)
+M("c04-classifier-not-total", "C04", A, "is_anyio_cancellation", "            exc.args\n            and isinstance(exc.args[0], str)\n            and exc.args[0].startswith", "            exc.args\n            and exc.args[0].startswith", ["R04-d"])
+M("c04-classifier-walks-any-exception", "C04", A, "is_anyio_cancellation", "        if isinstance(exc.__context__, CancelledError):\n            exc = exc.__context__\n            continue", "        if exc.__context__ is not None:\n            exc = exc.__context__\n            continue", ["R04-d"])
